@@ -198,3 +198,75 @@ Definition c16_direct (k nout : nat) (ra0 ra1 dec0 dec1 : Q) (ras decs : list Q)
          (nout =? k) && (length ras =? k) && (length decs =? k);
          in_window ra0 ra1 ras && in_window dec0 dec1 decs;
          joint_ok weights redshifts pairs ].
+
+
+(* ---------- attribute tables with arbitrary float64 content ---------- *)
+(* The value of a stored float64: a rational, +inf, -inf or NaN.  NaN is ONE value here (a row
+   (NaN, z) of the samples IS a row: the float comparison NaN <> NaN must not hide it); the two
+   zeros are the same value.  The bit pattern (a Z below 2^64) is the finer observable used for
+   the tie with the model only. *)
+Inductive fval := FFin (q : Q) | FPInf | FNInf | FNaN.
+Definition fval_eqb (a b : fval) : bool :=
+  match a, b with
+  | FFin p, FFin q => Qeqb p q
+  | FPInf, FPInf => true
+  | FNInf, FNInf => true
+  | FNaN, FNaN => true
+  | _, _ => false
+  end.
+Definition fval_same (a b : fval) : Prop :=
+  match a, b with
+  | FFin p, FFin q => (p == q)%Q
+  | FPInf, FPInf => True
+  | FNInf, FNInf => True
+  | FNaN, FNaN => True
+  | _, _ => False
+  end.
+Definition fval_finite (a : fval) : bool := match a with FFin _ => true | _ => false end.
+
+Section AttrTable.
+  Context {A : Type} (d : A).
+  (* RandomsBase._draw_attributes over any value type: ONE index vector selects both columns *)
+  Definition draw_attributes_g (ws zs : list A) (idx : list nat) : list (A * A) :=
+    map (fun j => (nth j ws d, nth j zs d)) idx.
+
+  (* a preparation of the sample table before drawing (RandomsBase.__init__).  The code under
+     test keeps the table as it is; any preparation that only selects whole ROWS is harmless
+     (prepare_joint); one that treats the two columns separately is not (prepare_indep) *)
+  Definition prepare_indep (keep : A -> bool) (ws zs : list A) : list A * list A :=
+    (filter keep ws, filter keep zs).
+  Definition prepare_joint (keep : A -> bool) (ws zs : list A) : list A * list A :=
+    List.split (filter (fun wz => keep (fst wz) && keep (snd wz)) (combine ws zs)).
+
+  Context (eqb : A -> A -> bool).
+  Definition pair_eqb (a b : A * A) : bool := eqb (fst a) (fst b) && eqb (snd a) (snd b).
+  (* (w, z) is row j of the table for one and the same j *)
+  Definition joint_ok_g (ws zs : list A) (pairs : list (A * A)) : bool :=
+    forallb (fun wz => existsb (fun j => eqb (fst wz) (nth j ws d) && eqb (snd wz) (nth j zs d))
+                               (seq 0 (Nat.min (length ws) (length zs)))) pairs.
+End AttrTable.
+
+(* the index twin: the same generator (seed, window, data size m) over the table whose row j is
+   (j, j) shows the index vector itself *)
+Definition twin_attributes (m : nat) (idx : list nat) : list (nat * nat) :=
+  draw_attributes_g 0 (seq 0 m) (seq 0 m) idx.
+
+(* one observed call gen(k) / one stored patch of Catalog.from_random over an arbitrary table
+   (ws, zs : the supplied samples widened to float64, as values and as bit patterns; a missing
+   column is the constant 0), next to its index twin.
+   flags: 0 model agrees: the coordinates equal those of the twin bit for bit, the twin's indices
+            are below m, and the stored pairs are, bit for bit and in order, rows twin[i] of the table
+          1 size: k records
+          2 window
+          3 joint draw: every stored (w, z) is one row of the supplied samples (as values; NaN = NaN)
+          4 reproducible: same bits as a fresh generator with the same seed and table *)
+Definition c16_attr_case (k nout m : nat) (ra0 ra1 dec0 dec1 : Q) (ras decs : list Q)
+           (ws zs : list fval) (wbits zbits : list Z) (twin : list nat) (coords_same : bool)
+           (pairs : list (fval * fval)) (pbits : list (Z * Z)) (repro : bool) : nat :=
+  code [ coords_same && forallb (fun j => j <? m) twin
+           && (length ws =? m) && (length zs =? m) && (length wbits =? m) && (length zbits =? m)
+           && list_eqb (pair_eqb Z.eqb) pbits (draw_attributes_g 0%Z wbits zbits twin);
+         (nout =? k) && (length ras =? k) && (length decs =? k) && (length pairs =? k);
+         in_window ra0 ra1 ras && in_window dec0 dec1 decs;
+         joint_ok_g (FFin 0) fval_eqb ws zs pairs;
+         repro ].
